@@ -17,7 +17,8 @@ PROP = dict(
     lean_modules=["Octo.Props.C24"],
     required_theorems=["Octo.C24.int_parsers", "Octo.C24.csv_cell_conforms", "Octo.C24.csv_error_iff_unrepresentable",
                        "Octo.C24.csv_conforms", "Octo.C24.csv_preview_no_error", "Octo.C24.json_record_conforms",
-                       "Octo.C24.json_value_conforms", "Octo.C24.json_error_iff_unrepresentable", "Octo.C24.csv_raw_refuted",
+                       "Octo.C24.json_value_conforms", "Octo.C24.json_error_iff_unrepresentable", "Octo.C24.json_typesum_accepts",
+                       "Octo.C24.json_type_accepts_value", "Octo.C24.json_preview_no_error", "Octo.C24.csv_raw_refuted",
                        "Octo.C24.json_raw_refuted", "Octo.C24.C24_full", "Octo.C24.C24_shipped_refuted"],
     nontrivial=_nontrivial,
     rule="`ints`/`bools`: strconv.ParseInt, fastfloat.ParseInt64 and strconv.ParseBool on boundary strings (signs, 18/19/20 "
@@ -36,9 +37,8 @@ PROP = dict(
         "(computed by the generator with the same library functions); theorems quantify over all oracles",
         "csv_preview_no_error assumes every text strconv.ParseInt accepts is accepted by strconv.ParseFloat or fastfloat.Parse "
         "(a column of ints is widened to Float by the first float)",
-        "JSON: that the inferred type accepts every previewed row (no spurious error within the preview) is checked by the "
-        "correspondence run and the oracle on generated files, not proved (TypeSum over object types)",
-        "object keys are distinct within one JSON object",
+        "json_preview_no_error assumes well-formed documents: object keys are distinct within one JSON object (fastjson's Get "
+        "returns the first match and sort.Slice is not stable)",
         "encoding/csv and fastjson are trusted libraries",
     ],
     trusted=["Go compiler and runtime", "strconv.ParseFloat, fastfloat.Parse, time.Parse (oracles), encoding/csv, fastjson"],
@@ -47,7 +47,9 @@ PROP = dict(
                "alternative of the type accepts the cell (csv_error_iff_unrepresentable); files of at most 100 rows are read "
                "without error (csv_preview_no_error); fastfloat.ParseInt64 = strconv.ParseInt except on a leading '+' (int_parsers, "
                "both modelled exactly); every value getOctoSQLValue accepts matches its (arbitrarily nested) type and ok is exactly "
-               "'representable' (json_value_conforms, json_error_iff_unrepresentable). Tie: exact differential run of the real "
+               "'representable' (json_value_conforms, json_error_iff_unrepresentable); TypeSum of JSON-shaped types accepts every "
+               "document either operand accepts, incl. merges of object types with different key sets (json_typesum_accepts), hence "
+               "the schema inferred from <= 100 rows accepts every one of them (json_preview_no_error). Tie: exact differential run of the real "
                "csv/json Creator+Run against the Lean model on generated files.",
     level_note="Trusted: Lean kernel; axioms propext, Classical.choice, Quot.sound; the correspondence harness; float/time parsers as "
                "oracles. The shipped code violated the property (rows beyond the preview, '+5', ok ignored, missing keys not "
